@@ -24,17 +24,19 @@ const ID = "C09"
 // Styles are the render configurations: the four non-text renderers, the six
 // registered decorations and an unknown decoration.
 var Styles = []string{"csv", "html", "json", "markdown", "ascii-simple", "none", "utf8-light", "utf8-light-curved", "utf8-heavy", "utf8-double", "no-such-decoration",
-	"c09-bars-only", "c09-rules-only", "c09-corners-only", "c09-wide-glyphs",
+	"c09-bars-only", "c09-rules-only", "c09-corners-only", "c09-wide-glyphs", "c09-inner-only", "c09-header-bar-only",
 	// style strings with further sections, as auto takes them (whatever the sections say, never a panic)
 	"html.class", "html.id", "HTML.x.id.class=y", "html.class=", "csv.", "json.x", "markdown.a=b", "texttable.none.x", "texttable.", "texttable..", ".", "..", "none.caption=x"}
 
 // decorations an application registered as they are, key points only (nothing says a decoration must be complete):
-// vertical bars and nothing horizontal, horizontal rules and nothing vertical, corners only, and a populated one
+// vertical bars and nothing horizontal, horizontal rules and nothing vertical, corners only, the inner divider only, the header bar only, and a populated one
 // whose glyphs are two cells wide
 func init() {
 	decoration.RegisterDecorationName("c09-bars-only", decoration.Decoration{VHeader: "|", VBodyBorder: "|", VBodyInner: "|"})
 	decoration.RegisterDecorationName("c09-rules-only", decoration.Decoration{HOuter: "-", HRule: "-"})
 	decoration.RegisterDecorationName("c09-corners-only", decoration.Decoration{TopLeft: "/", TopRight: "\\", BottomLeft: "\\", BottomRight: "/"})
+	decoration.RegisterDecorationName("c09-inner-only", decoration.Decoration{VBodyInner: ":"})
+	decoration.RegisterDecorationName("c09-header-bar-only", decoration.Decoration{VHeader: "!"})
 	wide := decoration.Decoration{Horizontal: "\u2550\u2550", Vertical: "\u6f22"}
 	wide.Populate()
 	decoration.RegisterDecorationName("c09-wide-glyphs", wide)
